@@ -366,6 +366,12 @@ def list_append(eng, args, kwargs, st, node):
     xs, x = args
     o = st.heap[xs.loc]
     from . import reclists
+    from .symexec import VOptSym
+    if isinstance(x, VOptSym) and isinstance(o, HList):
+        # the list's element type invariant (e.g. list[str]): the appended Optional must not be None here
+        eng.oblige('safe', 'appended-value-is-not-None', st, Not(x.isnone), node)
+        st.assume(Not(x.isnone))
+        x = x.val
     if reclists.append(eng, xs, x, st, node):
         return [(NONE, st)]
     if isinstance(o, HObjList):
